@@ -456,7 +456,9 @@ theorem inv_pushToBlock2 (P : Params) (st : St) (p : Pkt) {st' : St} {b : Bool}
         · simp at h; obtain ⟨rfl, rfl⟩ := h
           refine ⟨?_, fun hf => by cases hf⟩
           split
-          · exact inv_complete hi hl
+          · split
+            · exact inv_complete hi hl
+            · exact inv_error _ hi hl
           · exact hi
       · split at h
         · simp at h; obtain ⟨rfl, rfl⟩ := h; exact ⟨hi, fun _ => hl⟩
@@ -704,9 +706,9 @@ theorem inv_attachMeta (st : St) (fdtId : Nat) (f : FileEntry) {st' : St}
   · simp at h; subst h
     exact ⟨hi.noIdle, hi.ps, hi.term, hi.bwOff, by simp⟩
 
-theorem inv_attachFdt (P : Params) (st : St) (fdtId : Nat) (file : Option FileEntry) {st' : St} {b : Bool}
-    (hi : Inv st) (h : attachFdt P st fdtId file = .ok (st', b)) : Inv st' := by
-  unfold attachFdt at h
+theorem inv_attachFdtOld (P : Params) (st : St) (fdtId : Nat) (file : Option FileEntry) {st' : St} {b : Bool}
+    (hi : Inv st) (h : attachFdtOld P st fdtId file = .ok (st', b)) : Inv st' := by
+  unfold attachFdtOld attachCore at h
   split at h
   · simp at h; rw [← h.1]; exact hi
   · split at h
@@ -740,6 +742,49 @@ theorem inv_attachFdt (P : Params) (st : St) (fdtId : Nat) (file : Option FileEn
                 · rename_i st6 h6
                   simp at h; rw [← h.1]
                   exact inv_pushFromCache _ _ i6 h6
+
+
+/-! ### the FDT is the authority: `attach_fdt` first confronts the in-band OTI with the File entry -/
+
+theorem fdtConflict_writer {st : St} {f : FileEntry} (h : fdtConflict st f = .ok true) : st.writer = none := by
+  unfold fdtConflict at h
+  split at h
+  · cases h
+  · rename_i hw; cases hx : st.writer <;> simp_all
+
+/-- `attach_fdt` is the old function on `st`, or - on a conflict, which needs `writer = None` - on `resetOti st` -/
+theorem attachFdt_cases {P : Params} {st : St} {id : Nat} {file : Option FileEntry} {r : St × Bool}
+    (h : attachFdt P st id file = .ok r) :
+    attachFdtOld P st id file = .ok r ∨
+    (∃ f, file = some f ∧ st.writer = none ∧ st.fdtId = none ∧ attachFdtOld P (resetOti st) id (some f) = .ok r) := by
+  unfold attachFdt at h
+  split at h
+  · left; unfold attachFdtOld; rename_i hf; rw [if_pos hf]; exact h
+  · rename_i hf
+    split at h
+    · left; unfold attachFdtOld; rw [if_neg hf]; exact h
+    · rename_i f
+      split at h
+      · cases h
+      · rename_i c hc
+        cases c with
+        | false => left; unfold attachFdtOld; rw [if_neg hf]; simpa using h
+        | true =>
+          right
+          refine ⟨f, rfl, fdtConflict_writer hc, by simpa using hf, ?_⟩
+          unfold attachFdtOld
+          have : (resetOti st).fdtId.isSome = false := by simpa [resetOti] using hf
+          rw [if_neg (by simp [this])]
+          simpa using h
+
+theorem inv_reset {st : St} (hi : Inv st) : Inv (resetOti st) :=
+  ⟨hi.noIdle, hi.ps, hi.term, fun _ => rfl, hi.fdt⟩
+
+theorem inv_attachFdt (P : Params) (st : St) (fdtId : Nat) (file : Option FileEntry) {st' : St} {b : Bool}
+    (hi : Inv st) (h : attachFdt P st fdtId file = .ok (st', b)) : Inv st' := by
+  rcases attachFdt_cases h with h0 | ⟨f, rfl, _, _, h1⟩
+  · exact inv_attachFdtOld P st fdtId file hi h0
+  · exact inv_attachFdtOld P (resetOti st) fdtId _ (inv_reset hi) h1
 
 /-- after Drop no writer is left open -/
 theorem inv_drop (st : St) (hi : Inv st) :
